@@ -399,7 +399,7 @@ func TestRelay(t *testing.T) {
 			}
 			s := sinks[idx]
 			dst := s.conn.LocalAddr().(*net.UDPAddr)
-			if op[0] == 's' {
+			if op[0] == 's' || op[0] == 'n' {
 				payload := []byte(fmt.Sprintf("C18 step %d to %d %s", step, idx, bytes.Repeat([]byte{0x00, 0xff}, step*37)))
 				before := make([]int, len(sinks))
 				for i, x := range sinks {
@@ -407,7 +407,13 @@ func TestRelay(t *testing.T) {
 					before[i] = len(x.got)
 					x.mu.Unlock()
 				}
-				tun.Write(append(header(dst), payload...))
+				hd := header(dst)
+				if op[0] == 'n' {
+					// the destination is named, not numbered: "localhost" and this sink's port (two sinks share the name)
+					hd = append([]byte{0, 0, 0, 3, 9}, []byte("localhost")...)
+					hd = append(hd, byte(dst.Port>>8), byte(dst.Port))
+				}
+				tun.Write(append(hd, payload...))
 				// wait for the relayed datagram (a loaded machine can take longer than the usual millisecond), then a little
 				// longer so that a duplicate or a copy to another destination would be seen too
 				for w := 0; w < 100; w++ {
